@@ -68,6 +68,17 @@ var decoFieldNames = func() []string {
 
 // randomDecoration sets a random subset of the glyph fields and completes the rest with Populate.
 func randomDecoration(r *gen.R) (decoration.Decoration, string) {
+	d, desc := randomDecoration0(r)
+	if r.Chance(1, 4) {
+		// spelled out piece by piece: every piece a renderer draws is set, the four template fields the struct
+		// documents as unused for rendering (from which Populate would infer the rest) are left empty
+		d.Horizontal, d.Vertical, d.TopDown, d.VBorder = "", "", "", ""
+		desc += " with Horizontal, Vertical, TopDown and VBorder left empty (spelled out piece by piece)"
+	}
+	return d, desc
+}
+
+func randomDecoration0(r *gen.R) (decoration.Decoration, string) {
 	var d decoration.Decoration
 	v := reflect.ValueOf(&d).Elem()
 	var desc []string
